@@ -28,7 +28,7 @@ for h in $commits; do
   fi
   fired=""
   for p in $prop $also; do
-    out=$(VERIF_REPO="$WT" "$ROOT/check" "$p" quick 2>&1); rc=$?
+    out=$(VERIF_REPO="$WT" VERIF_OUT="$(dirname "$WT")/out" "$ROOT/check" "$p" quick 2>&1); rc=$?
     if [ $rc -eq 1 ] && echo "$out" | grep -aq "^VIOLATION property=$p"; then fired="$fired $p"; [ "$p" = "$prop" ] && break; fi
     if echo "$out" | grep -aq "harness does not build"; then fired="NOBUILD"; break; fi
   done
